@@ -93,6 +93,16 @@ func c01Check(c *Ctx, spec *gen.ItemSpec, r *gen.R) {
 	t := tabular.New()
 	t.AddHeaders("h")
 	t.AddRowItems(made.Item)
+	// and as a header cell: a header row is made of cells like any other
+	th := tabular.New()
+	th.AddHeaders(made.Item, "second header")
+	var hdr *tabular.Cell
+	if hs := th.Headers(); len(hs) == 2 {
+		hdr = &hs[0]
+		if !c01Observe(c, hdr, made.Item, want, spec, "as a header cell") {
+			return
+		}
+	}
 	live, err := t.CellAt(tabular.CellLocation{Row: 1, Column: 1})
 	if err != nil {
 		c.Rec.Violate("cell-unreachable", fmt.Sprintf("CellAt(1,1) after AddRowItems: %v", err), spec)
@@ -122,9 +132,18 @@ func c01Check(c *Ctx, spec *gen.ItemSpec, r *gen.R) {
 			if !c01Observe(c, live, made.Item, want, spec, "after mutating the item, before Update") {
 				return
 			}
+			if hdr != nil && !c01Observe(c, hdr, made.Item, want, spec, "header cell, after mutating the item, before Update") {
+				return
+			}
 			want = spec.TextWith(&nf)
 			cell.Update()
 			live.Update()
+			if hdr != nil {
+				hdr.Update()
+				if !c01Observe(c, hdr, made.Item, want, spec, "header cell, after Update") {
+					return
+				}
+			}
 			if !c01Observe(c, &cell, made.Item, want, spec, "after Update") {
 				return
 			}
